@@ -130,6 +130,19 @@ Ltac note_world neww :=
           end
         | let Hn := fresh "Hn" in assert (Hn : InvL None neww) by solve_inv ].
 
+(* from the invariant alone to the invariant with the current label pinned: a state slot rewritten later (after
+   calls that keep the label) can then be shown to keep it *)
+Ltac pin H :=
+  lazymatch type of H with
+  | InvL None ?w =>
+      let Hp := fresh "Hp" in assert (Hp : InvL (Some (cur_label w)) w) by (split; [apply H | reflexivity])
+  | _ => idtac
+  end.
+
+Ltac head_of t := lazymatch t with ?f _ => head_of f | _ => t end.
+
+Ltac start := intros; try match goal with H : InvL None _ |- _ => pin H end.
+
 Ltac wpi :=
   cbv beta iota;
   lazymatch goal with
@@ -150,20 +163,22 @@ Ltac wpi :=
           [unfold emit; apply wp_modify; unfold IQ; cbv beta; apply InvL_emit; [reflexivity | solve_inv] | intros ? ? ?]
       end
   | |- wp (mapM_ _ _) _ _ =>
-      match goal with
-      | H : InvL ?l _ |- _ => apply (wp_call l); [apply wp_mapM_inv; [intros ? ? ? | solve_inv] | intros ? ? ?]
-      end
+      apply (wp_call None);
+      [apply wp_mapM_inv; [let H := fresh "H" in intros ? ? H; pin H | solve_inv] | let H := fresh "H" in intros ? ? H; pin H]
   | |- wp ?m _ _ =>
       lazymatch m with
       | match ?x with _ => _ end => destruct x eqn:?
-      | _ => eapply wp_call; [solve [eauto 3 with inv] | intros ? ? ?]
+      | _ =>
+          (* a function with a proved specification; otherwise a (non-recursive) helper: look inside *)
+          first [ eapply wp_call; [solve [eauto 3 with inv] | let H := fresh "H" in intros ? ? H; pin H]
+                | let h := head_of m in unfold h ]
       end
   | |- match ?r with Ok _ => _ | Err _ => _ end => destruct r
   | |- IQ _ _ _ => solve_inv
   | |- InvL _ _ => solve_inv
   end.
 
-Ltac walk := repeat wpi.
+Ltac walk := start; repeat wpi.
 
 (* ------------------------------------------------------------------ leaf functions: the label is kept *)
 Lemma schedule_inv : forall l r w, InvL l w -> wp (schedule r) (IQ l) w.
@@ -248,11 +263,10 @@ Proof. intros. unfold close. walk. Qed.
 
 (* ------------------------------------------------------------------ everything that may call back into the process *)
 Ltac label_side :=
-  repeat match goal with H : InvL (Some _) _ |- _ => destruct H as [_ H] end;
-  unfold cur_label in *; cbn;
+  repeat match goal with H : InvL _ _ |- _ => destruct H as [_ H] end;
+  unfold cur_label in *; cbn in *;
   repeat match goal with H : st _ = _ |- _ => rewrite H in * end;
-  repeat match goal with H : option_map label_of (st _) = _ |- _ => rewrite H end;
-  cbn; try reflexivity; congruence.
+  cbn in *; try reflexivity; congruence.
 
 Ltac frame_side ::=
   cbn;
@@ -397,15 +411,6 @@ Qed.
 Lemma after_run_fn_inv : forall o w, InvL None w -> wp (after_run_fn o) (IQ None) w.
 Proof. intros. unfold after_run_fn. walk. Qed.
 #[export] Hint Resolve after_run_fn_inv : inv.
-
-(* an interrupted wait gets a fresh waiting future: the label stays WAITING *)
-Lemma after_waiting_inv : forall fn wk w, InvL None w -> wp (after_waiting fn wk) (IQ None) w.
-Proof.
-  intros fn wk w Hw.
-  assert (Hp : InvL (Some (cur_label w)) w) by (split; [apply Hw | reflexivity]).
-  clear Hw. unfold after_waiting. walk.
-Qed.
-#[export] Hint Resolve after_waiting_inv : inv.
 
 Lemma execute_state_inv : forall w, InvL None w -> wp execute_state (IQ None) w.
 Proof. intros. unfold execute_state. walk. Qed.
